@@ -161,8 +161,10 @@ def twin_derive(spec, t):
     return 'pub mod twin {\n    use super::*;\n' + ''.join('    ' + l + '\n' for l in (s + any_fn(t2)).splitlines()) + '}\n'
 
 
-def emit(modname, cfgid, spec, sp=None, pre='', t_override=None):
+def emit(modname, cfgid, spec, sp=None, pre='', t_override=None, xf=None, modes=('compact', 'pretty')):
     t = t_override or build(spec)
+    if xf:
+        xf(t)
     body = pre + PRE + render_type(t, sp) + any_fn(t) + variant_index_fn(t) + oracle_impl(spec, t)
     unwind = max(max_len(spec), 12) + 6
     plain = spec.tname is None and spec.tnf is None and all(v['vname'] is None and v['nf'] is None and all(c == 'p' for c in v['fields']) for v in spec.variants)
@@ -197,10 +199,15 @@ def emit(modname, cfgid, spec, sp=None, pre='', t_override=None):
 '''
     h1 = Harness('h_compact', unwind=unwind, covers=['reached'])
     h2 = Harness('h_pretty', unwind=unwind, covers=['reached'], stubs=[STUB])
-    body += h1.attrs() + 'pub fn h_compact() { check(false); }\n'
-    body += h2.attrs() + 'pub fn h_pretty() { check(true); }\n'
+    hs = []
+    if 'compact' in modes:
+        body += h1.attrs() + 'pub fn h_compact() { check(false); }\n'
+        hs.append(h1)
+    if 'pretty' in modes:
+        body += h2.attrs() + 'pub fn h_pretty() { check(true); }\n'
+        hs.append(h2)
     sample = dict(type_definition=render_type(t, sp), oracle=oracle_impl(spec, t))
-    return Module(modname, cfgid, body, [h1, h2], sample=sample, functions=FUNCTIONS,
+    return Module(modname, cfgid, body, hs, sample=sample, functions=FUNCTIONS,
                   classes=classes_of(spec))
 
 
